@@ -60,7 +60,7 @@ def backup_makedirs_guard(eng, st, args):
 
 
 BACKUP = Contract(
-    M + 'back_up_and_remove', props=['C02', 'C03', 'C14'],
+    M + 'back_up_and_remove', props=['C02', 'C03', 'C14', 'C10'],
     params={'self': FBK, 'filename': STR}, returns=BOOL,
     requires=lambda c: [('assume-entered', entered(c))],
     ensures=lambda c: [
